@@ -431,6 +431,32 @@ func (bc *boundsCtx) below(v ssa.Value, bs boundSpec, facts []edgeFact, depth in
 	return false
 }
 
+// diffNonNeg: a-b >= 0 because a fact says a >= b / a > b / b <= a / b < a,
+// or b is a constant k and a fact says a >= k.
+func (bc *boundsCtx) diffNonNeg(bo *ssa.BinOp, facts []edgeFact) bool {
+	a, b := bo.X, bo.Y
+	for _, f := range facts {
+		x, y, op := f.cond.X, f.cond.Y, f.cond.Op
+		if !f.truth {
+			op = negateOp(op)
+		}
+		if sameValue(x, a) && sameValue(y, b) && (op == token.GEQ || op == token.GTR || op == token.EQL) {
+			return true
+		}
+		if sameValue(x, b) && sameValue(y, a) && (op == token.LEQ || op == token.LSS || op == token.EQL) {
+			return true
+		}
+		if k, ok := constIntVal(b); ok {
+			if sameValue(x, a) {
+				if kk, ok := constIntVal(y); ok && ((op == token.GEQ && kk >= k) || (op == token.GTR && kk >= k-1) || (op == token.NEQ && kk == 0 && k == 1 && bc.nonNeg(a, nil, 0)) || (op == token.EQL && kk >= k)) {
+					return true
+				}
+			}
+		}
+	}
+	return false
+}
+
 // negative: v < 0 is among the facts.
 func negative(v ssa.Value, facts []edgeFact) bool {
 	if k, ok := constIntVal(v); ok {
@@ -609,6 +635,26 @@ func (c *Ctx) checkIndexBounds(rule string, pkgs []string, wantHelpers []string)
 					}
 					if x.High != nil {
 						ops = append(ops, opnd{x.High, 1, "slice-high"})
+					}
+				case *ssa.MakeSlice:
+					// make([]T, a-b): a computed difference must be proven non-negative
+					for _, sz := range []ssa.Value{x.Len, x.Cap} {
+						if bo, ok := sz.(*ssa.BinOp); ok && bo.Op == token.SUB {
+							if _, isConst := constIntVal(bo); !isConst {
+								nSites++
+								base := ssaFuncKey(fn)
+								if len(fn.TypeArgs()) > 0 {
+									base = ssaFuncKey(fn.Origin())
+								}
+								counts[base+":make"]++
+								key := fmt.Sprintf("%s:make-size#%d", base, counts[base+":make"])
+								if bc.nonNeg(sz, factsAt(b), 0) || bc.diffNonNeg(bo, factsAt(b)) {
+									c.OK(rule, key, x.Pos(), "computed slice size proven non-negative")
+								} else {
+									c.Viol(rule, key, x.Pos(), "make() size is a difference that is not proven non-negative on every path (e.g. more keys than elements, duplicates): a negative length panics (makeslice: len out of range), a too small one overruns")
+								}
+							}
+						}
 					}
 				case *ssa.Lookup:
 					if _, isMap := x.X.Type().Underlying().(*types.Map); !isMap {
